@@ -44,11 +44,24 @@ pub fn j_conv(src: TimeScale, dst: TimeScale, c: i128, out: &mut Local) {
         let e = named_ctor(mk(c), src);
         let r = e.to_time_scale(dst);
         let back = r.to_time_scale(src);
-        (e, r, e.to_duration_in_time_scale(dst), named_accessor(&e, dst), back)
+        // the two other spellings of the TAI view, and the parts constructor
+        let tai_views = if dst == TimeScale::TAI {
+            let (pc, pn) = e.to_tai_parts();
+            Some((e.to_duration_since_j1900(), Duration::from_parts(pc, pn), Epoch::from_tai_parts(pc, pn)))
+        } else {
+            None
+        };
+        (e, r, e.to_duration_in_time_scale(dst), named_accessor(&e, dst), back, tai_views)
     });
     let pair = format!("{}->{}", scale_name(src), scale_name(dst));
     match r {
-        Ok((e, r, d2, d3, back)) => {
+        Ok((e, r, d2, d3, back, tai_views)) => {
+            if let Some((j1900, parts, from_parts)) = tai_views {
+                if alpha(j1900) != want || alpha(parts) != want || from_parts.time_scale != TimeScale::TAI || alpha(from_parts.duration) != want {
+                    out.viol("c05.conv", format!("tai-parts-or-j1900-view-differs,{}", scale_name(src)), args, describe(want), format!("to_duration_since_j1900 {} / to_tai_parts {} / from_tai_parts {}", alpha(j1900), alpha(parts), alpha(from_parts.duration)));
+                    return;
+                }
+            }
             if e.time_scale != src || alpha(e.duration) != c {
                 out.viol("c05.conv", format!("ctor-wrong,{}", scale_name(src)), args, format!("{} {}", scale_name(src), c), format!("{} {}", scale_name(e.time_scale), alpha(e.duration)));
             } else if r.time_scale != dst {
@@ -252,9 +265,9 @@ impl SeqSpec for Chain {
 pub fn run(rep: &mut Report) {
     let deep = !rep.quick();
     let q = false;
-    rep.rule = "epoch lattice EL(src) (duration lattice within +-10 500 years, windows round every scale's zero, J2000, the year 0001/9999 bounds and every leap-second entry) x all 36 ordered pairs of the six uniform scales: to_time_scale, to_duration_in_time_scale, the named accessor, the named constructor and the round trip; commutation with + d for 16 boundary durations; all public constants against civil-date-derived values; float views; stateright BFS over every sequence of conversions up to depth 3 (quick) / 4 (thorough). Oracle: one i128 subtraction of derived zero points. Non-trivial = src != dst and a count within one second of a century boundary or of zero on either side.".into();
+    rep.rule = "epoch lattice EL(src) (duration lattice within +-10 500 years, windows round every scale's zero, J2000, the year 0001/9999 bounds and every leap-second entry) x all 36 ordered pairs of the six uniform scales: to_time_scale, to_duration_in_time_scale, the named accessor, the named constructor and the round trip (for TAI also to_tai_parts / from_tai_parts / to_duration_since_j1900); the float constructors from_<scale>_seconds / _days on a 76-value float lattice (C18's conversion rule); commutation with + d for 16 boundary durations; all public constants against civil-date-derived values; float views; stateright BFS over every sequence of conversions up to depth 3 (quick) / 4 (thorough). Oracle: one i128 subtraction of derived zero points. Non-trivial = src != dst and a count within one second of a century boundary or of zero on either side.".into();
     rep.assumptions = vec!["zero points derived from the civil dates and offsets in the statement (1980-01-06 +19 s, 1999-08-22 +19 s, 2006-01-01 +33 s, TT = TAI + 32.184 s)".into()];
-    let w = if deep { 2048 } else { 256 };
+    let w = if deep { 262_144 } else { 256 };
     let lw = if q { None } else { Some((-3i64, 40i64)) };
     let els: Vec<Vec<i128>> = UNIFORM.iter().map(|s| lattice::el(*s, w, lw)).collect();
     rep.bound("EL_sizes", els.iter().map(|e| e.len() as u64).collect::<Vec<_>>());
@@ -280,6 +293,15 @@ pub fn run(rep: &mut Report) {
         let p = i % 36;
         let j = i / 36;
         j_commute(UNIFORM[(p / 6) as usize], UNIFORM[(p % 6) as usize], sub[(j / m) as usize], ds[(j % m) as usize], out)
+    });
+    // the float constructors of the six scales (seconds; days where there is one)
+    let cf = ctor_floats();
+    let ncf = cf.len() as u64;
+    rep.bound("float_ctor_values", ncf);
+    sweep(rep, "c05.float_ctor", 6 * 2 * ncf, |i, out| {
+        if !j_scale_float_ctor("c05.float_ctor", UNIFORM[(i / (2 * ncf)) as usize], ((i / ncf) % 2) as usize, cf[(i % ncf) as usize], out) {
+            out.dc(0); // TT has no from_tt_days
+        }
     });
     sweep(rep, "c05.consts", 26, |i, out| j_consts(i, out));
     sweep(rep, "c05.refdate", 6, |i, out| j_refdate(UNIFORM[i as usize], out));
@@ -307,6 +329,9 @@ pub fn replay(check: &str, a: &[String], out: &mut Local) -> bool {
         "c05.consts" => j_consts(pu64(&a[0]), out),
         "c05.refdate" => j_refdate(scale_from(&a[0]), out),
         "c05.float" => j_float(scale_from(&a[0]), p128(&a[1]), out),
+        "c05.float_ctor" => {
+            j_scale_float_ctor("c05.float_ctor", scale_from(&a[0]), a[1].parse().unwrap(), pf64(&a[2]), out);
+        }
         _ => return false,
     }
     true
